@@ -114,6 +114,7 @@ World(n, own1, up1, img1, same, up2) ==
                              [] i = 3 -> IF n = 3 THEN Producer(NoFile) ELSE Dummy],
      same |-> same,          \* c[1] and c[2] live in the same stage (then the reference may be spelled relatively)
      sib |-> NoSibling,
+     flicker |-> 0,          \* i > 0: the own file of c[i] was missing when the hashes were first asked for and is back now
      focus |-> "all",        \* "content": a content base world, only the content / file name aspects are perturbed
      where |-> Where0]
 
@@ -281,6 +282,9 @@ ChangeSiblingLiteral    == a.sib.present /\ Pair("sibLit", SibAt, [a EXCEPT !.si
 Identity              == phase = "base" /\ Pair("identity", 0, a)
 
 (* -- missing files -------------------------------------------------------- *)
+(* the file disappears, the hashes are asked for (none may exist), the file comes back: the hashes are those of the   *)
+(* untouched world -- nothing computed while the input was missing may stick                                          *)
+FlickerOwnFile(i)     == HasOwn(i) /\ Pair("ownFlicker", i, [a EXCEPT !.flicker = i])
 RemoveOwnFile(i)      == HasOwn(i) /\ Pair("ownMissing", i, SetOwn(i, "present", FALSE))
 RemoveProducedFile(i) == HasUpA(i) /\ a.c[i].up.kind = "pfile" /\ Pair("upMissing", i, SetUp(i, "present", FALSE))
 
@@ -290,7 +294,7 @@ Next == \/ \E i \in 1..3, k \in {"k9", "B", "B.prefix", "B.nul", "B.nl", "B.big4
         \/ \E i \in 1..3 : \/ ChangeExecutable(i) \/ ChangeLiteral(i)
                            \/ ChangeImage(i) \/ LiteralViaVariable(i) \/ RenameOwnFile(i) \/ RenameProducedFile(i)
                            \/ ChangeBackendOnly(i) \/ ChangeResources(i) \/ ChangeEnvironment(i)
-                           \/ RemoveOwnFile(i) \/ RemoveProducedFile(i)
+                           \/ RemoveOwnFile(i) \/ RemoveProducedFile(i) \/ FlickerOwnFile(i)
         \/ \E i \in 1..3, m \in {"ref", "copy", "link", "output"} : ChangeOwnMethod(i, m) \/ ChangeUpMethod(i, m)
         \/ \E s \in {"plain", "renamed", "affix", "affix2", "digits", "digitmid", "repldigit", "repldigit2", "replsib"} : RenameComponents(s)
         \/ RespellReference \/ MoveInstance \/ RenameStages \/ ShiftStages \/ ChangeTime \/ Replicate \/ Identity
@@ -306,7 +310,7 @@ Spec == Init /\ [][Next]_vars
 DirectKinds == {"exe", "lit", "ownContent", "ownMethod", "upContent", "upMethod", "image"}
 (* "does not depend on where the instance lives, on component or stage names, or on time" + everything that is not   *)
 (*  named by the "exactly when" (file names, spelling, back-end without image change, resources, environment)        *)
-IrrelevantKinds == {"viaVar", "exeVia", "ownName", "upName", "respell", "backendOnly", "resources", "environment", "move",
+IrrelevantKinds == {"viaVar", "exeVia", "ownFlicker", "ownName", "upName", "respell", "backendOnly", "resources", "environment", "move",
                     "rename", "stageName", "stageShift", "time", "replicate", "identity"}
 MissingKinds == {"ownMissing", "upMissing"}
 (* changes of the bystander: irrelevant for every component of the chain (x.at = SibAt is no chain index), relevant for it *)
@@ -328,6 +332,9 @@ RECURSIVE ReachesF(_, _, _)
 ReachesF(w, i, x) == x.at = i \/ (HasUp(w, i) /\ ReachesF(w, i + 1, x))
 FuzzyClaimed(w, i, x) == ~(x.kind \in {"ownName", "upName", "upMissing"} /\ ReachesF(w, i, x))
 
+RECURSIVE OwnMissingFrom(_, _)    \* an input (a file no component produces) of c[i] or of anything upstream of it is missing
+OwnMissingFrom(w, i) == OwnMissing(w, i) \/ (HasUp(w, i) /\ OwnMissingFrom(w, i + 1))
+
 RECURSIVE CompleteFrom(_, _)      \* nothing that (transitively) feeds c[i] is missing
 CompleteFrom(w, i) == ~OwnMissing(w, i) /\ ~UpMissing(w, i) /\ (HasUp(w, i) => CompleteFrom(w, i + 1))
 
@@ -344,6 +351,9 @@ StrongExactly == InPair => \A i \in Chain :
 (* C16: no hash while a referenced input is missing; a hash when everything is there *)
 NoHashWhileMissing == \A i \in Chain : /\ (OwnMissing(b, i) \/ UpMissing(b, i)) => ~Strong(b, i).def
                                        /\ OwnMissing(b, i) => ~Fuzzy(b, i).def
+(* the fuzzy hash stands for the whole upstream chain: none while an input of ANY upstream component is missing,      *)
+(* even though the produced file the component itself reads is there                                                  *)
+NoFuzzyWhileUpstreamInputMissing == \A i \in Chain : OwnMissingFrom(b, i) => ~Fuzzy(b, i).def
 HashWhenComplete   == \A i \in Chain : CompleteFrom(b, i) => (Strong(b, i).def /\ Fuzzy(b, i).def)
 (* C16, fuzzy *)
 FuzzyIgnoresProducedContent == (InPair /\ asp.kind = "upContent") => \A i \in Chain : Fuzzy(a, i) = Fuzzy(b, i)
@@ -370,7 +380,7 @@ Obs(i) == [i |-> i,
            fdefA |-> Fuzzy(a, i).def,  fdefB |-> Fuzzy(b, i).def,  frel |-> Rel(Fuzzy(a, i), Fuzzy(b, i)),
            fclaimed |-> FuzzyClaimed(a, i, asp),
            \* definedness of the fuzzy hash is only claimed where the property decides it
-           fdefClaimed |-> (OwnMissing(b, i) \/ CompleteFrom(b, i))]
+           fdefClaimed |-> (OwnMissingFrom(b, i) \/ CompleteFrom(b, i))]
 EmitPair == (Emit /\ InPair) => PrintT(ToJson([a |-> a, b |-> b, asp |-> asp, obs |-> [i \in Chain |-> Obs(i)],
                                                 sib |-> [present |-> a.sib.present, rel |-> Rel(SibId(a), SibId(b))]]))
 =============================================================================
